@@ -12,6 +12,22 @@ from translate import HEADER, lean_str
 MUTABLE_NODES = (ast.List, ast.Dict, ast.Set, ast.ListComp, ast.DictComp, ast.SetComp, ast.Call)
 
 
+def immutable_expr(v, const_names):
+    """an expression whose value is an immutable constant: literals, tuples of such, arithmetic on such, names of
+    module-level / imported constants (upper-case names bound to immutable values)"""
+    if isinstance(v, ast.Constant):
+        return True
+    if isinstance(v, ast.Tuple):
+        return all(immutable_expr(e, const_names) for e in v.elts)
+    if isinstance(v, ast.Name):
+        return v.id in const_names
+    if isinstance(v, ast.UnaryOp):
+        return immutable_expr(v.operand, const_names)
+    if isinstance(v, ast.BinOp):
+        return immutable_expr(v.left, const_names) and immutable_expr(v.right, const_names)
+    return False
+
+
 def lst(xs):
     return "[" + ", ".join(lean_str(x) for x in xs) + "]"
 
@@ -21,6 +37,26 @@ def gen_footprint(repo, info):
     with open(os.path.join(src, "protocol.py"), encoding="utf-8") as fh:
         tree = ast.parse(fh.read())
     module_mutables = []
+    # names bound at module level to immutable constants: imports from the constants module (bytes / str / int
+    # literals there) and module-level assignments of immutable expressions
+    const_names = set()
+    with open(os.path.join(src, "constants.py"), encoding="utf-8") as fh:
+        ctree = ast.parse(fh.read())
+    constants_immutable = set()
+    for node in ctree.body:
+        if isinstance(node, ast.Assign) and immutable_expr(node.value, constants_immutable):
+            for t in node.targets:
+                if isinstance(t, ast.Name):
+                    constants_immutable.add(t.id)
+    for node in tree.body:
+        if isinstance(node, ast.ImportFrom) and node.module and node.module.endswith("constants"):
+            for a in node.names:
+                if a.name in constants_immutable:
+                    const_names.add(a.asname or a.name)
+        if isinstance(node, ast.Assign) and immutable_expr(node.value, const_names):
+            for t in node.targets:
+                if isinstance(t, ast.Name):
+                    const_names.add(t.id)
     for node in tree.body:
         if isinstance(node, (ast.Assign, ast.AnnAssign)):
             value = node.value
@@ -40,6 +76,10 @@ def gen_footprint(repo, info):
     for node in cls.body:
         if isinstance(node, (ast.Assign, ast.AnnAssign, ast.AugAssign)):
             targets = node.targets if isinstance(node, ast.Assign) else [node.target]
+            # a class attribute bound to an immutable constant (a tuple of literals, a number, a string) cannot carry
+            # per-connection state; anything else at class level is listed
+            if not isinstance(node, ast.AugAssign) and node.value is not None and immutable_expr(node.value, const_names):
+                continue
             for t in targets:
                 class_assigns.append(ast.unparse(t))
         if isinstance(node, (ast.FunctionDef, ast.AsyncFunctionDef)):
@@ -95,12 +135,21 @@ def gen_footprint(repo, info):
     passes_queue = False
     queue_names = set()
     consume_args = set()
+    queue_unbounded = True
     for node in ast.walk(stree):
         if isinstance(node, ast.Assign) and isinstance(node.value, ast.Call) \
                 and ast.unparse(node.value.func) in ("asyncio.Queue", "Queue"):
             for t in node.targets:
                 if isinstance(t, ast.Name):
                     queue_names.add(t.id)
+            # put_nowait on a bounded queue raises QueueFull: the queue must be created without a size limit
+            call = node.value
+            sizes = list(call.args[:1]) + [k.value for k in call.keywords if k.arg == "maxsize"]
+            if [k for k in call.keywords if k.arg is None] or len(call.args) > 1:
+                queue_unbounded = False
+            for v in sizes:
+                if not (isinstance(v, ast.Constant) and isinstance(v.value, int) and v.value <= 0):
+                    queue_unbounded = False
         if isinstance(node, ast.Call) and ast.unparse(node.func) == "consume" and node.args:
             if isinstance(node.args[0], ast.Name):
                 consume_args.add(node.args[0].id)
@@ -157,12 +206,13 @@ def gen_footprint(repo, info):
         "classLevelAssigns": class_assigns, "mutableDefaultArgs": mutable_defaults, "globalStores": global_stores,
         "moduleMutables": module_mutables, "initAttrs": init_attrs, "storedAttrs": stored_attrs,
         "sharedMutableInitValues": shared_init, "factoryFreshInstance": fresh, "factoryPassesQueue": passes_queue,
+        "queueUnbounded": bool(queue_names) and queue_unbounded,
         "wiring": wiring,
     }
     info["footprint"] = fp
     lines = [HEADER, "namespace Astm", "",
              "structure Footprint where",
-             "  classLevelAssigns : List String",
+             "  classLevelAssigns : List String     -- class-level assignments of anything but immutable constants",
              "  mutableDefaultArgs : List String",
              "  globalStores : List String",
              "  moduleMutables : List String",
@@ -171,6 +221,7 @@ def gen_footprint(repo, info):
              "  sharedMutableInitValues : List String",
              "  factoryFreshInstance : Bool",
              "  factoryPassesQueue : Bool",
+             "  queueUnbounded : Bool         -- the shared queue is created without a size limit (put_nowait never refuses)",
              "  consumeTask : Bool            -- loop.create_task(consume(<the queue>, callback=...))",
              "  callbackIsDispatch : Bool     -- callback=dispatch_astm_message",
              "  writeWhenOutput : Bool        -- dispatch: `if output:` ... write_message",
@@ -186,6 +237,7 @@ def gen_footprint(repo, info):
         lines.append("  %s := %s" % (k, lst(fp[k])))
     lines.append("  factoryFreshInstance := %s" % ("true" if fresh else "false"))
     lines.append("  factoryPassesQueue := %s" % ("true" if passes_queue else "false"))
+    lines.append("  queueUnbounded := %s" % ("true" if fp["queueUnbounded"] else "false"))
     for k in ["consumeTask", "callbackIsDispatch", "writeWhenOutput", "writeArgs", "formatFromArgs", "consumeLoopsForever",
               "consumeCallsCallbackPerItem"]:
         lines.append("  %s := %s" % (k, "true" if wiring[k] else "false"))
